@@ -115,6 +115,13 @@ Theorem T10_preface_any_segmentation : forall reads tail, concat reads = connect
 Proof. exact (preface_any_segmentation ob_preface_read_full). Qed.
 Print Assumptions T10_preface_any_segmentation.
 
+(* The relay's own HPACK decoder accepts, and its encoder may use, any dynamic table size an endpoint can
+   negotiate (newRelay lifts x/net's 4096-octet defaults to MaxUint32): a fact about the source only; the
+   behaviour is observed with HEADER_TABLE_SIZE values of 65537, 2^20 and 2^24 followed by header blocks that
+   carry the size update of the peer's real hpack.Encoder. *)
+Theorem T10_hpack_table_limits_unbounded : hpack_limits_unbounded = true.
+Proof. exact ob_hpack_limits_unbounded. Qed.
+
 (* Hand-off from the MITM path (proxy_conn.go handleMITM): the read deadline armed for the client's TLS
    handshake is cleared before the connection is given to h2.Config.Proxy, whose relays never touch
    deadlines.  This is a fact about the source only (obligation); the behaviour is observed by the MITM
